@@ -83,6 +83,55 @@ def getter_kinds(m):
     return out
 
 
+
+def fold_page_selection(ctx, fn, sort_call, resp_call, pay):
+    """The tail of Locate - from the sorted list to the response payload - folded for a list of 5 objects and every combination of
+    offset / maximum in {absent, 0, 1, 2, 5, 7}: the identifiers handed to LocateResponsePayload must be those of sorted[offset:offset+max].
+    Returns (ok, text), or None when the tail is not a straight top-level sequence that can be folded."""
+    from ..fold import Folder, Unfoldable, Raised, Opaque
+    body = fn.body
+    def top(node):
+        x = node
+        while getattr(x, '_parent', None) is not None and x._parent is not fn:
+            x = x._parent
+        return x if getattr(x, '_parent', None) is fn else None
+    ts, tr = top(sort_call), top(resp_call)
+    if ts is None or tr is None or ts not in body or tr not in body or body.index(ts) >= body.index(tr):
+        return None
+    if not (isinstance(ts, ast.Assign) and len(ts.targets) == 1 and isinstance(ts.targets[0], ast.Name)):
+        return None
+    lst = ts.targets[0].id
+    tail = body[body.index(ts) + 1: body.index(tr) + 1]
+    VALS = (None, 0, 1, 2, 5, 7)
+    N = 5
+    bad = None
+    n = 0
+    try:
+        for off in VALS:
+            for mx in VALS:
+                got = []
+                f = Folder(models={'payloads.LocateResponsePayload': lambda *a, **k: got.append(k) or Opaque('response')}, steps=20000)
+                env = {'self': {'__attrs__': ('_logger',), '_logger': Opaque('logger')},
+                       pay: {'__attrs__': ('offset_items', 'maximum_items'), 'offset_items': off, 'maximum_items': mx},
+                       lst: [{'__attrs__': ('unique_identifier',), 'unique_identifier': i} for i in range(N)]}
+                try:
+                    f.run(tail, env)
+                except Raised as ex:
+                    bad = bad or '%s raised for offset=%s maximum=%s' % (ex.name, off, mx)
+                    continue
+                if len(got) != 1 or 'unique_identifiers' not in got[0]:
+                    return None
+                lo = off or 0
+                want = [str(i) for i in range(N)][lo:(lo + mx) if mx is not None else None]
+                n += 1
+                if list(got[0]['unique_identifiers']) != want:
+                    bad = bad or 'offset=%s maximum=%s over 5 results returns positions %s, expected %s' % (off, mx, got[0]['unique_identifiers'], want)
+    except Unfoldable:
+        ctx.count('page_selection_unfoldable', 1)
+        return None
+    ctx.count('page_selections_folded', n)
+    return (bad is None, bad or 'folded for %d offset/maximum combinations' % n)
+
 def run(ctx):
     src = ctx.src
     m = EngineModel(src)
@@ -339,35 +388,44 @@ def run(ctx):
             and isinstance(keyf[0].body.operand, ast.Attribute) and keyf[0].body.operand.attr == 'initial_date'
         desc = (okk and len(rev) == 1 and isinstance(rev[0], ast.Constant) and rev[0].value is True) or (neg and not rev)
         ctx.check(desc, 'C14.R4', 'KmipEngine._process_locate|newest-first', ssite, 'sorted on initial_date, descending', 'results are not sorted by initial_date descending: %s' % short(sc, 120))
-        slices = [n for n in g.nodes if n.kind == 'stmt' and isinstance(n.stmt, ast.Assign) and isinstance(n.stmt.value, ast.Subscript) and isinstance(n.stmt.value.slice, ast.Slice)]
-        ctx.count('slice_sites', len(slices), 3)
-        ok_order = g.dominates(sn, resp[0][0]) and all(g.dominates(sn, x) for x in slices) and not any(IL.stmt in x.loops or OL.stmt in x.loops for x in slices + [sn]) \
-            and OL.id in g.reachable() and sn.id in g.reachable(OL) if True else False
-        ctx.check(ok_order, 'C14.R4', 'KmipEngine._process_locate|sort-after-filter-before-slice', ssite, 'filter, then sort, then slice',
-                  'the sort does not happen after filtering and before every slice')
-        off, mx = '%s.offset_items' % pay, '%s.maximum_items' % pay
-        for x in slices:
-            sl = x.stmt.value.slice
-            lo, hi = (U(sl.lower) if sl.lower is not None else None), (U(sl.upper) if sl.upper is not None else None)
-            conds = {}
-            for tt, lab in dominating_edges(g, x):
-                from ..guards import is_none_test
-                nt = is_none_test(tt.stmt)
-                if nt and U(nt[1]) in (off, mx):
-                    present = (lab == 'T') == (nt[0] == 'isnot')
-                    conds[U(nt[1])] = present
-            want = None
-            if conds.get(off) and conds.get(mx):
-                want = (off, hi and ' '.join(hi.split()) in ('%s + %s' % (off, mx), '%s + %s' % (mx, off)))
-                good = lo == off and bool(want[1])
-            elif conds.get(off) and conds.get(mx) is False:
-                good = lo == off and hi is None
-            elif conds.get(off) is False and conds.get(mx):
-                good = lo in (None, '0') and hi == mx
-            else:
-                good = False
-            ctx.check(good and sl.step is None, 'C14.R4', 'KmipEngine._process_locate|slice %s' % sorted(conds.items()), m.site(x.stmt, fn),
-                      'slice [%s:%s] under %s' % (lo, hi, conds), 'slice [%s:%s] does not select the requested page under %s' % (lo, hi, conds))
+        folded = fold_page_selection(ctx, fn, sc, resp[0][1], pay)
+        if folded is not None:
+            okp, why = folded
+            ctx.check(g.dominates(sn, resp[0][0]) and not any(IL.stmt in x.loops or OL.stmt in x.loops for x in [sn]) and sn.id in g.reachable(OL), 'C14.R4',
+                      'KmipEngine._process_locate|sort-after-filter-before-slice', ssite, 'filter, then sort, then slice', 'the sort does not happen after filtering and before the page selection')
+            ctx.check(okp, 'C14.R4', 'KmipEngine._process_locate|page-selection', ssite,
+                      'the identifiers returned are those of sorted[offset:offset+maximum] (a missing offset is 0, a missing maximum is unbounded): %s' % why,
+                      'the page returned is not sorted[offset:offset+maximum]: %s' % why)
+        else:
+            slices = [n for n in g.nodes if n.kind == 'stmt' and isinstance(n.stmt, ast.Assign) and isinstance(n.stmt.value, ast.Subscript) and isinstance(n.stmt.value.slice, ast.Slice)]
+            ctx.count('slice_sites', len(slices), 3)
+            ok_order = g.dominates(sn, resp[0][0]) and all(g.dominates(sn, x) for x in slices) and not any(IL.stmt in x.loops or OL.stmt in x.loops for x in slices + [sn]) \
+                and OL.id in g.reachable() and sn.id in g.reachable(OL) if True else False
+            ctx.check(ok_order, 'C14.R4', 'KmipEngine._process_locate|sort-after-filter-before-slice', ssite, 'filter, then sort, then slice',
+                      'the sort does not happen after filtering and before every slice')
+            off, mx = '%s.offset_items' % pay, '%s.maximum_items' % pay
+            for x in slices:
+                sl = x.stmt.value.slice
+                lo, hi = (U(sl.lower) if sl.lower is not None else None), (U(sl.upper) if sl.upper is not None else None)
+                conds = {}
+                for tt, lab in dominating_edges(g, x):
+                    from ..guards import is_none_test
+                    nt = is_none_test(tt.stmt)
+                    if nt and U(nt[1]) in (off, mx):
+                        present = (lab == 'T') == (nt[0] == 'isnot')
+                        conds[U(nt[1])] = present
+                want = None
+                if conds.get(off) and conds.get(mx):
+                    want = (off, hi and ' '.join(hi.split()) in ('%s + %s' % (off, mx), '%s + %s' % (mx, off)))
+                    good = lo == off and bool(want[1])
+                elif conds.get(off) and conds.get(mx) is False:
+                    good = lo == off and hi is None
+                elif conds.get(off) is False and conds.get(mx):
+                    good = lo in (None, '0') and hi == mx
+                else:
+                    good = False
+                ctx.check(good and sl.step is None, 'C14.R4', 'KmipEngine._process_locate|slice %s' % sorted(conds.items()), m.site(x.stmt, fn),
+                          'slice [%s:%s] under %s' % (lo, hi, conds), 'slice [%s:%s] does not select the requested page under %s' % (lo, hi, conds))
         # the sliced list is the one returned
     ctx.not_decided += ['value semantics of each predicate (mask subset, date ranges), order among equal timestamps']
     ctx.assumptions += ["primitives' __eq__ returns NotImplemented for foreign types, so wrapper == raw is always False"]
